@@ -72,6 +72,10 @@ def seeded_cases(rng, n):
                 top[0] = pp.define("FN", None, [pp.bt("lit", "x.svh")])   # unquoted name
             elif r_ < 0.65:
                 top[0] = pp.define("FN", None, [pp.bt("str", '"nowhere.svh"')])
+            elif r_ < 0.85:
+                # the name is followed by a // comment (the blank in front of it survives the expansion: the text has to be
+                # trimmed BEFORE the quotes are taken off)
+                top[0] = pp.define("FN", None, [pp.bt("str", '"x.svh"'), pp.bt("lcmt", "the header")])
         elif kind == "twice":
             files["x.svh"] = [t(), pp.nl(), pp.ifndef("GUARD"), pp.nl(), pp.define("GUARD", None, None), pp.nl(), t(), pp.nl(), pp.endif(), pp.nl()]
             top = [pp.inc("x.svh"), pp.nl(), t(), pp.nl(), pp.inc("x.svh"), pp.nl(), pp.ifdef("GUARD"), t(), pp.endif(), pp.nl()]
